@@ -342,7 +342,11 @@ func (ex *Exec) inline(fr *Frame, st *State, fn *ssa.Function, args []SVal, bind
 	saved := st.inLoop
 	st.inLoop = map[*ssa.BasicBlock]bool{}
 	nf.onReturn = func(st2 *State, results []SVal) {
-		st2.inLoop = saved
+		// every return path gets its own copy: the caller marks loops it enters afterwards in this map
+		st2.inLoop = make(map[*ssa.BasicBlock]bool, len(saved))
+		for b, v := range saved {
+			st2.inLoop[b] = v
+		}
 		switch len(results) {
 		case 0:
 			k(st2, SVal{})
